@@ -74,30 +74,43 @@ Proof.
   destruct (index_of c (x ++ y)) as [j|] eqn:Ej; [|discriminate]. inversion H; subst. specialize (IH _ eq_refl Hx). lia.
 Qed.
 
-(* the shape person_ok describes *)
+Lemma index_of_split c v : forall i, index_of c v = Some i ->
+  exists x y, v = x ++ c :: y /\ has_byte c x = false /\ i = List.length x.
+Proof.
+  induction v as [|a v IH]; intros i H; [discriminate|]. cbn [index_of] in H.
+  destruct (a =? c) eqn:E.
+  - apply N.eqb_eq in E. subst a. exists [], v. repeat split. now inversion H.
+  - destruct (index_of c v) as [j|] eqn:Ej; [|discriminate]. destruct (IH _ eq_refl) as [x [y [-> [Hx Hj]]]].
+    exists (a :: x), y. repeat split.
+    + rewrite has_byte_cons, N.eqb_sym, E, Hx. reflexivity.
+    + inversion H. subst j. reflexivity.
+Qed.
+
+(* the shape person_ok describes: the name part [x] may hold '>' *)
 Lemma person_shape v : person_ok v = true ->
   exists x m a, v = x ++ LT :: m ++ GT :: a /\
-    has_byte LT x = false /\ has_byte GT x = false /\ has_byte LT m = false /\ has_byte GT m = false /\
+    has_byte LT x = false /\ has_byte LT m = false /\ has_byte GT m = false /\
     has_byte LT a = false /\ has_byte GT a = false /\
-    first_is SPC x = false /\
-    match rev (trim_right SPC x) with c :: _ => negb ((c =? 9) || (c =? 13)) = true | [] => True end.
+    (trim_right SPC x = [] \/
+     (first_is SPC x = false /\
+      match rev (trim_right SPC x) with c :: _ => negb ((c =? 9) || (c =? 13)) = true | [] => True end)).
 Proof.
-  unfold person_ok. intros H. apply andb_true_iff in H as [H Hm]. apply andb_true_iff in H as [H1 H2].
-  apply Nat.eqb_eq in H1, H2.
-  destruct (count_unique _ _ H1) as [x [y [-> [Hx Hy]]]].
-  rewrite (index_of_first _ _ _ Hx) in Hm.
-  destruct (index_of GT (x ++ LT :: y)) as [gt|] eqn:Eg; [|discriminate].
-  apply andb_true_iff in Hm as [Hlt Hm]. apply Nat.ltb_lt in Hlt.
-  rewrite firstn_app_exact in Hm. apply andb_true_iff in Hm as [Hf Hl]. apply negb_true_iff in Hf.
-  assert (Hgx : has_byte GT x = false).
-  { destruct (has_byte GT x) eqn:E; [|reflexivity]. pose proof (index_of_lt _ _ _ _ Eg E). lia. }
-  rewrite count_app in H2. rewrite (count_zero _ _ Hgx) in H2. cbn [Nat.add] in H2.
-  change (LT :: y) with ([LT] ++ y) in H2. rewrite count_app in H2.
-  replace (count_byte GT [LT]) with 0%nat in H2 by reflexivity. cbn [Nat.add] in H2.
+  unfold person_ok. intros H.
+  destruct (index_of LT v) as [lt|] eqn:El; [|discriminate].
+  destruct (index_of_split _ _ _ El) as [x [y [-> [Hx ->]]]].
+  rewrite firstn_app_exact in H.
+  replace (skipn (S (List.length x)) (x ++ LT :: y)) with y in H.
+  2:{ replace (x ++ LT :: y) with ((x ++ [LT]) ++ y) by (now rewrite <- app_assoc).
+      replace (S (List.length x)) with (List.length (x ++ [LT])) by (clear; rewrite app_length; cbn [List.length]; lia).
+      now rewrite skipn_app_exact. }
+  apply andb_true_iff in H as [H Hm]. apply andb_true_iff in H as [H1 H2].
+  apply negb_true_iff in H1. apply Nat.eqb_eq in H2.
   destruct (count_unique _ _ H2) as [m [a [-> [Hgm Hga]]]].
-  rewrite has_byte_app, has_byte_cons in Hy. apply orb_false_iff in Hy as [Hlm Hy]. apply orb_false_iff in Hy as [_ Hla].
+  rewrite has_byte_app, has_byte_cons in H1. apply orb_false_iff in H1 as [Hlm H1]. apply orb_false_iff in H1 as [_ Hla].
   exists x, m, a. repeat split; try assumption.
-  destruct (rev (trim_right SPC x)); [exact I|exact Hl].
+  destruct (trim_right SPC x) as [|t0 ts] eqn:Et; [now left|right].
+  apply andb_true_iff in Hm as [Hf Hl]. apply negb_true_iff in Hf. split; [exact Hf|].
+  unfold last_is in Hl. destruct (rev (t0 :: ts)) as [|c r]; [exact I|exact Hl].
 Qed.
 
 (* trim_right removes exactly the trailing run *)
@@ -144,6 +157,51 @@ Proof.
   intros H. apply trim_left_id. destruct (trim_right_spec SPC x) as [n [Hx _]].
   destruct (trim_right SPC x) as [|t ts]; [reflexivity|]. rewrite Hx in H. exact H.
 Qed.
+
+Lemma name_agree x : no_lf x = true ->
+  (trim_right SPC x = [] \/
+   (first_is SPC x = false /\
+    match rev (trim_right SPC x) with c :: _ => negb ((c =? 9) || (c =? 13)) = true | [] => True end)) ->
+  rstrip git_isspace x = trim_both SPC x.
+Proof.
+  intros Hlf [E|[Hf Hc]].
+  - destruct (trim_right_spec SPC x) as [n [Hx _]]. unfold trim_both. rewrite E in *. cbn [app] in Hx. cbn [trim_left].
+    unfold rstrip. rewrite Hx, rev_repeat', <- (app_nil_r (repeat SPC n)), (drop_while_repeat git_isspace SPC n [] eq_refl).
+    reflexivity.
+  - unfold trim_both. rewrite (trim_left_of_trim_right _ Hf). now apply rstrip_trim.
+Qed.
+
+(* ---- a text without digits holds no date, for git and for go-git ---- *)
+Lemma no_digit_take f a : existsb is_digit a = false -> take_while is_digit (drop_while f a) = [].
+Proof.
+  induction a as [|c r IH]; [reflexivity|]. cbn [existsb]. intros H. apply orb_false_iff in H as [H1 H2].
+  cbn [drop_while]. destruct (f c); [now apply IH|]. cbn [take_while]. now rewrite H1.
+Qed.
+
+Lemma no_digit_firstn n : forall a, existsb is_digit a = false -> existsb is_digit (firstn n a) = false.
+Proof.
+  induction n as [|n IH]; intros [|c r] H; try reflexivity. cbn [existsb] in H. apply orb_false_iff in H as [H1 H2].
+  cbn [firstn existsb]. now rewrite H1, (IH _ H2).
+Qed.
+
+Lemma no_digit_tl a : existsb is_digit a = false -> existsb is_digit (tl a) = false.
+Proof. destruct a as [|c r]; [reflexivity|]. cbn [existsb tl]. intros H. now apply orb_false_iff in H as [_ H]. Qed.
+
+Lemma no_digit_digits_val b : existsb is_digit b = false -> digits_val b = None.
+Proof.
+  destruct b as [|c r]; [reflexivity|]. cbn [existsb]. intros H. apply orb_false_iff in H as [H1 _].
+  unfold digits_val. cbn [digits_acc]. now rewrite H1.
+Qed.
+
+Lemma no_digit_parse b : existsb is_digit b = false -> parse_int64 b = None.
+Proof.
+  destruct b as [|c r]; [reflexivity|]. intros H. pose proof (no_digit_digits_val _ H) as Hb.
+  pose proof (no_digit_digits_val _ (no_digit_tl _ H)) as Hr. cbn [tl] in Hr.
+  unfold parse_int64. destruct (c =? 43); [now rewrite Hr|]. destruct (c =? 45); [now rewrite Hr|]. now rewrite Hb.
+Qed.
+
+Lemma no_digit_time nm em b : existsb is_digit b = false -> decode_time nm em b = mk_ident nm em zero_ts 0.
+Proof. intros H. unfold decode_time. now rewrite (no_digit_parse _ (no_digit_firstn _ _ H)). Qed.
 
 (* ---- zones: Go's "-0700" of the decoded offset is git's "%+05d" ---- *)
 Definition zone_row (hh : N) : bool :=
@@ -302,7 +360,7 @@ Theorem ident_matches_git : forall v,
   git_person (Some v) = (id_name i, id_email i, go_date i).
 Proof.
   intros v Hlf Hp Hd.
-  destruct (person_shape _ Hp) as [x [m [a [-> [Hlx [Hgx [Hlm [Hgm [Hla [Hga [Hfx Hcx]]]]]]]]]]].
+  destruct (person_shape _ Hp) as [x [m [a [-> [Hlx [Hlm [Hgm [Hla [Hga Hnx]]]]]]]]].
   assert (Hlfx : no_lf x = true) by (rewrite no_lf_app in Hlf; now apply andb_true_iff in Hlf).
   assert (A1 : has_byte LT (m ++ GT :: a) = false) by (rewrite has_byte_app, has_byte_cons, Hlm, Hla; reflexivity).
   assert (A2 : last_index_of GT (x ++ LT :: m ++ GT :: a) = Some (List.length (x ++ LT :: m))).
@@ -320,13 +378,13 @@ Proof.
       replace (S (List.length x)) with (List.length (x ++ [LT])) by (clear; rewrite app_length; cbn [List.length]; lia).
       now rewrite skipn_app_exact. }
   rewrite (index_of_first _ _ _ Hgm), firstn_app_exact, A2, A3.
-  rewrite (rstrip_trim _ Hlfx Hcx).
+  rewrite (name_agree _ Hlfx Hnx).
   (* go-git *)
   cbv zeta. unfold decode_ident.
   rewrite (last_index_of_unique _ _ _ A1), A2.
   replace (Nat.ltb (List.length (x ++ LT :: m)) (List.length x)) with false
     by (clear; symmetry; apply Nat.ltb_ge; rewrite app_length; lia).
-  rewrite firstn_app_exact. unfold trim_both. rewrite (trim_left_of_trim_right _ Hfx).
+  rewrite firstn_app_exact.
   unfold slice.
   replace (skipn (S (List.length x)) (x ++ LT :: m ++ GT :: a)) with (m ++ GT :: a).
   2:{ replace (x ++ LT :: m ++ GT :: a) with ((x ++ [LT]) ++ m ++ GT :: a) by (now rewrite <- app_assoc).
@@ -338,13 +396,14 @@ Proof.
   replace (skipn (List.length (x ++ LT :: m) + 2) (x ++ LT :: m ++ GT :: a)) with (tl a).
   2:{ replace (List.length (x ++ LT :: m) + 2)%nat with (S (S (List.length (x ++ LT :: m)))) by (clear; lia).
       now rewrite skipn_S_tl, A3. }
-  unfold date_ok in Hd. rewrite A2, A3 in Hd.
-  destruct a as [|a0 a'].
-  - (* no date at all *)
-    replace (Nat.ltb (List.length (x ++ LT :: m) + 2) (List.length (x ++ LT :: m ++ [GT]))) with false
-      by (clear; symmetry; apply Nat.ltb_ge; rewrite !app_length; cbn [List.length]; rewrite app_length; cbn [List.length]; lia).
-    reflexivity.
-  - destruct (date_matches (trim_right SPC x) m (a0 :: a') Hd) as [ds [s [zs [G [E [En Em]]]]]].
+  unfold date_ok in Hd. rewrite A2, A3 in Hd. cbv zeta in Hd. apply orb_true_iff in Hd as [Hd|Hd].
+  - (* no digit after the last '>': no date on either side *)
+    apply negb_true_iff in Hd.
+    rewrite (no_digit_take git_isspace _ Hd), (no_digit_time _ _ _ (no_digit_tl _ Hd)).
+    cbn [g_name g_mail g_date].
+    destruct (Nat.ltb (List.length (x ++ LT :: m) + 2) (List.length (x ++ LT :: m ++ GT :: a))); reflexivity.
+  - destruct a as [|a0 a']; [discriminate Hd|].
+    destruct (date_matches (trim_both SPC x) m (a0 :: a') Hd) as [ds [s [zs [G [E [En Em]]]]]].
     cbv zeta in G. destruct G as [G1 [G2 [t3 [G3 [G4 [G5 G6]]]]]].
     rewrite G1 in G3. rewrite G1. destruct ds as [|d0 ds0]; [contradiction|]. rewrite G3, G4, G5.
     destruct zs as [|z0 zs0]; [contradiction|].
